@@ -194,7 +194,7 @@ class C11(World):
         "abort fault: sys.settrace-based injector raising SimAbort at the n-th library line",
         "scratch disk: per-run directory under /dev/shm holding producer-written JSON files and exports",
     ]
-    fault_kinds = ["abort", "natural_failure", "clock_jump", "timing_on"]
+    fault_kinds = ["abort", "injected_error:memory", "injected_error:os", "natural_failure", "clock_jump", "timing_on"]
     state_abstraction = "(sorted multiset of problem indices analysed so far, set of shared input objects already used, whether an abort has happened, timing switch, number of wrappers)"
     rule = (
         "each run = one generated history (3-25 operations) issued by 1-3 interleaved simulated callers in one process: "
@@ -304,11 +304,14 @@ class C11(World):
                         p, is_hp = args.choice(others), False
                     else:
                         op = "clock"
-            abort = None
+            abort = abort_exc = None
             if args.random() < swarm["p_abort"] and not is_hp:
                 # half uniform over the call; the rest near its ends (set-up / restore-at-the-end code is where an abort leaves state behind)
                 x = args.random()
                 abort = round(args.random() if x < 0.5 else (0.9 + 0.1 * args.random() if x < 0.8 else 0.1 * args.random()), 4)
+                # what is raised there: a BaseException (Ctrl-C-like, bypasses `except Exception`) or an ordinary exception
+                # (failed allocation / system call: goes through the library's own handlers and clean-up code)
+                abort_exc = args.choice([None, None, "memory", "os"])
             if op == "svc":
                 st = dict(op="svc", p=p, form=args.choices(FORMS, swarm["w_forms"])[0], name=args.choice(names), abort=abort, full=args.random() < 0.15)
             elif op == "clock":
@@ -332,6 +335,8 @@ class C11(World):
                 st = dict(op="wtarget", w=args.randrange(64), abort=abort)
             else:
                 st = dict(op="wexport", w=args.randrange(64))
+            if st.get("abort") is not None and abort_exc:
+                st["abort_exc"] = abort_exc
             st["client"] = c
             steps.append(st)
         return dict(swarm=swarm, problems=probs, steps=steps)
@@ -424,6 +429,8 @@ class C11(World):
                 fault("abort")
                 if tr is not None and tr.where:
                     probe("abort_in:" + tr.where[0].split("/")[-1])
+                if tr is not None and tr.exc:
+                    fault("injected_error:" + tr.exc)
                 tick("module_state_after_abort")
                 if d:
                     V("module_state_after_abort", d[0], step, f"module state differs after an aborted call: {d[:3]}")
@@ -669,7 +676,7 @@ class C11(World):
                     tr = None
                     if st.get("abort") is not None:
                         a = ask(p, fc, name, need_lines=True)
-                        tr = LineTracer(max(1, int(st["abort"] * (a["lines"] or 1))))
+                        tr = LineTracer(max(1, int(st["abort"] * (a["lines"] or 1))), st.get("abort_exc"))
                         kind, val = tr.run(call)
                         if tr.fired and kind != "abort":
                             probe("abort_swallowed")
@@ -761,11 +768,14 @@ class C11(World):
                             tr = None
                             if st.get("abort") is not None and not had:
                                 a = ask(*key, need_lines=True)
-                                tr = LineTracer(max(1, int(st["abort"] * (a["lines"] or 1))))
+                                tr = LineTracer(max(1, int(st["abort"] * (a["lines"] or 1))), st.get("abort_exc"))
                                 kind, val = tr.run(w.target)
                                 if tr.fired and kind != "abort":
+                                    # swallowed inside the library: the call went on along some other path and the wrapper may
+                                    # now cache a result of that path - its own later answers are not judged (like an edited one)
                                     probe("abort_swallowed")
                                     kind = "abort"
+                                    rec["edited"] = True
                             else:
                                 kind, val = run_plain(w.target)
                             if had and kind == "ok":
@@ -894,7 +904,12 @@ class C11(World):
             if st.get("abort") is not None:
                 t = copy.deepcopy(trace)
                 t["steps"][k]["abort"] = None
+                t["steps"][k].pop("abort_exc", None)
                 yield t
+                if st.get("abort_exc"):
+                    t = copy.deepcopy(trace)
+                    t["steps"][k].pop("abort_exc")
+                    yield t
             if st.get("client"):
                 t = copy.deepcopy(trace)
                 t["steps"][k]["client"] = 0
@@ -916,7 +931,7 @@ class C11(World):
     def warnings(self, stats, tier):
         want = ["shared_object_reused", "same_problem_two_names"]
         out = [f"probe {p} never hit" for p in want if not stats.get("probes", {}).get(p)]
-        for f in ("abort", "natural_failure", "clock_jump"):
+        for f in ("abort", "injected_error:memory", "injected_error:os", "natural_failure", "clock_jump"):
             if not stats.get("faults", {}).get(f):
                 out.append(f"fault kind {f} never fired")
         return out
